@@ -306,9 +306,11 @@ namespace
             // S1: never more than capacity-1 bytes stored
             if (rx->stored() > (size_t)cap - 1)
                 violate("C05/S1-capacity", "%s: %zu bytes stored in a buffer of capacity %d after byte %zu", VAR_NAME[variant], rx->stored(), cap, j);
-            if (st == ST_OTHER) violate("C05/unknown-status", "%s: newchar returned an undocumented status at byte %zu", VAR_NAME[variant], j);
-            if (fault_free && st != ST_CONT && st != ST_NEWPKG)
-                violate("C04/status", "%s: status %s at byte %zu of fault-free traffic", VAR_NAME[variant], ST_NAME[st], j);
+            // informational statuses (restart, garbage, codes this harness does not know) are not deliveries and not errors;
+            // only an error status on fault-free traffic contradicts "exactly one completed packet per frame"
+            if (st == ST_OTHER) probe("undocumented_status");
+            if (fault_free && (st == ST_CRCERR || st == ST_OVERFLOW || st == ST_STUFFERR))
+                violate("C04/status", "%s: error status %s at byte %zu of fault-free traffic", VAR_NAME[variant], ST_NAME[st], j);
             if (e.frame >= 0 && st == ST_OVERFLOW) overflow_in_frame[e.frame] = 1;
             if (st == ST_NEWPKG)
             {
